@@ -78,10 +78,17 @@ def groups(out):
     return res
 
 
-def canon(out, ops):
-    """A disconnect NACKs the in-flight messages in send-queue (= timer) order and the first one
-    twice; neither is part of the property (DESIGN.md section 7, other observations): for the
-    comparison the NACKs of messages that were on the wire become a sorted set."""
+def canon(out, ops, strict=False):
+    """What the property can observe of an event, in canonical form.
+    - inside one library call the order between datagrams and nack callbacks is not observable
+      by the property (give-up: next message first, then the NACK): result marker, datagrams in
+      order, callbacks in order;
+    - nack callbacks that matter to the property: NACK TOO_MANY_RETRIES (a message stops being in
+      flight) and, at a disconnect, the NACKs of messages that were never on the wire (the held
+      CONs), in order.  Everything else - RST callbacks, which in-flight messages a disconnect
+      reports, in which order and how often, the "could not determine the request" fallback -
+      belongs to C06/C07 and changes with their repairs (/repo 62d0bc3 did): it is compared only
+      with strict=True, whose differences are counted in the evidence and never raised."""
     gs = groups(out)
     if gs is None or len(gs) != len(ops):
         return out
@@ -93,22 +100,22 @@ def canon(out, ops):
         if op == "E":
             res.append("")
             continue
+        items = [x for x in items if x != "Wm"]   # the delayed multicast response itself
         if op[0] == "F":
             keep, infl = [], set()
             for it in items:
                 if it[0] == "N" and it.endswith(".1") and (sid, it.split(".")[1]) in seen:
-                    # ICMP: only "the first node in timer order" is reported - which one is a
-                    # matter of timing (C06), not of this property
                     infl.add("N4.*.1" if it.startswith("N4.") else it)
+                elif it[0] == "N" and it.endswith(".0") and not strict:
+                    pass
                 else:
                     keep.append(it)
-            items = keep + sorted(infl)
+            items = keep + (sorted(infl) if strict else [])
+        elif not strict:
+            items = [x for x in items if x[0] != "N" or x.startswith("N0.")]
         for it in items:
             if it[0] in "TE" and it[1] in "cn":
                 seen[(sid, it[2:].split(".")[0])] = 1
-        # inside one library call the order between datagrams and nack callbacks is not
-        # observable by the property (e.g. give-up: next message first, then the NACK):
-        # result marker, datagrams in order, callbacks in order
         items = [x for x in items if x[0] in "AX"] + [x for x in items if x[0] in "TWE"] + \
                 [x for x in items if x[0] not in "AXTWE"]
         res.append(",".join(items))
@@ -140,7 +147,7 @@ def mon_line(prefix, ops, out):
                     return None
                 toks += ["T%s,0" % sid, ",".join(per[sid])]
             continue
-        if any(("@" in it) or it[0] == "W" for it in items):
+        if any(("@" in it) or (it[0] == "W" and it != "Wm") for it in items):
             return None
         toks += [op, ",".join(items) if items else "-"]
     return " ".join(toks)
@@ -150,48 +157,50 @@ def resolve_natural(ops, out):
     """A natural-time history (W<ms> = advance the clock, the library's own timer loop fires what
     is due) as a forced-timer history: which timers fired is read off the implementation's trace
     (a datagram with an id that was on the wire before = that node's timer, retransmission; a NACK
-    TOO_MANY_RETRIES = that node's timer, give-up - the datagrams in front of it are the held
-    messages it released).  -> (ops', expected outputs per op') or None if the trace cannot be
-    explained that way (then the model certainly disagrees)."""
+    TOO_MANY_RETRIES = that node's timer, give-up), in order of appearance.  What one W produced
+    for one session is compared as one group (the new datagrams are the held messages released by
+    the give-ups; which give-up released which, and whether its NACK comes before or after them,
+    is not observable by the property).
+    -> (ops', groups) with groups = [(indices into ops', pseudo op, expected items)]"""
     gs = groups(out)
     if gs is None or len(gs) != len(ops):
         return None
     seen = set()
-    rops, rexp = [], []
+    rops, grp = [], []
     for op, items in zip(ops, gs):
         if op[0] != "W":
             sid = re.match(r"[A-Z](\d+)", op).group(1)
             for it in items:
                 if it[0] == "T" and it[1] in "cn":
                     seen.add((sid, it[2:].split(".")[0]))
+            grp.append(([len(rops)], op, items))
             rops.append(op)
-            rexp.append(items)
             continue
-        pend = {}
+        per = {}
+        order = []
         for it in items:
             m = re.match(r"(.*)@(\d+)$", it)
             if not m:
                 return None
             body, sid = m.group(1), m.group(2)
+            if sid not in per:
+                per[sid] = ([], [])
+                order.append(sid)
+            idxs, exp = per[sid]
+            exp.append(body)
             if body[0] == "T" and body[1] in "cn":
                 mid = body[2:].split(".")[0]
                 if (sid, mid) in seen:
-                    if pend.get(sid):
-                        return None
+                    idxs.append(len(rops))
                     rops.append("T%s,%s" % (sid, mid))
-                    rexp.append([body])
                 else:
                     seen.add((sid, mid))
-                    pend.setdefault(sid, []).append(body)
             elif body.startswith("N0."):
-                mid = body.split(".")[1]
-                rops.append("T%s,%s" % (sid, mid))
-                rexp.append(pend.pop(sid, []) + [body])
-            else:
-                return None
-        if any(pend.values()):
-            return None
-    return rops, rexp
+                idxs.append(len(rops))
+                rops.append("T%s,%s" % (sid, body.split(".")[1]))
+        for sid in order:
+            grp.append((per[sid][0], "T%s,0" % sid, per[sid][1]))
+    return rops, grp
 
 
 def peer_ok(ops, out):
@@ -309,11 +318,17 @@ def main(run):
         rr = resolve_natural(ops, cout)
         if rr is None:
             return False, "timer firings of the implementation cannot be explained"
+        rops, grp = rr
         if mout is None:
-            mo, _ = vlib.run_lines_robust(model, [gen_nstart.line_of(prefix, rr[0])])
+            mo, _ = vlib.run_lines_robust(model, [gen_nstart.line_of(prefix, rops)])
             mout = mo[0]
-        exp = " ".join("%d:%s" % (k, ",".join(x)) for k, x in enumerate(rr[1]))
-        return canon(mout, rr[0]) == canon(exp, rr[0]), "model on resolved history: %s" % mout
+        mg = groups(mout)
+        if mg is None or len(mg) != len(rops):
+            return False, "model on resolved history: %s" % mout
+        pseudo = [g[1] for g in grp]
+        exp = " ".join("%d:%s" % (k, ",".join(g[2])) for k, g in enumerate(grp))
+        got = " ".join("%d:%s" % (k, ",".join(x for j in g[0] for x in mg[j])) for k, g in enumerate(grp))
+        return canon(got, pseudo) == canon(exp, pseudo), "model on resolved history: %s" % mout
 
     def check_one(prefix, ops):
         """-> (kind, detail) for a single case; kind in ok / oracle / tie / crash"""
@@ -338,6 +353,7 @@ def main(run):
         return "ok", ""
 
     nbad = 0
+    nstrict = 0
     reported = set()
     for i, (prefix, ops, meta) in enumerate(cases):
         ln = lines[i]
@@ -370,6 +386,8 @@ def main(run):
             kind, what = "tie", ("implementation differs from the proved model (natural-time history "
                                  "replayed with the implementation's own timer firings)")
         if not kind:
+            if not nat and canon(model_out.get(i, ""), ops, strict=True) != canon(co, ops, strict=True):
+                nstrict += 1
             continue
         nbad += 1
         if nbad > 4:
@@ -410,6 +428,9 @@ def main(run):
         sweep_cfgs = [(1, 1, True, "c"), (2, 1, False, "c"), (1, 2, True, "s")]
         sw = [(p, o) for (ns_, rt, e0, kd) in sweep_cfgs
               for p, o in gen_nstart.enum_cases(depth, ns_, rt, e0, client=(kd == "c"))]
+        # ... and two sessions sharing the context's send queue, using the same message ids
+        d2 = 4 if quick else 5
+        sw += list(gen_nstart.enum_cases2(d2, [(1, 1, True, True), (1, 1, True, False)]))
         sl = [gen_nstart.line_of(p, o) for p, o in sw]
         sc, scr = run_cases(drv, sl, chunk=5000, t_chunk=60)
         sm, _ = vlib.run_lines_robust(model, sl)
@@ -436,8 +457,21 @@ def main(run):
         run.cov["leaf_sweep"] = {"cases": len(sl), "disagreements": sbad,
                                  "exhaustive_over": "all histories of exactly %d events over {S con, S non, "
                                  "A/R/T/P of each id submitted so far (<= 3), U, F1, F4} for (NSTART, "
-                                 "max_retransmit, established at start) in %s" % (depth, sweep_cfgs)}
+                                 "max_retransmit, established at start, kind) in %s; plus all histories of "
+                                 "exactly %d events of two sessions (client + server-side, NSTART 1, same "
+                                 "message ids) on one context" % (depth, sweep_cfgs, d2)}
         run.cov["evaluations"] += len(sl)
+
+    # thorough tier: the compiled proofs are re-checked by the independent checker
+    if not quick and not getattr(run, "replay", None):
+        rc, out = vlib.sh(["coqchk", "-silent", "-Q", ".", "LibcoapV", "-o", "LibcoapV.Properties_C08"],
+                          cwd=vlib.COQ, timeout=1800, check=False)
+        ok = rc == 0 and "Axioms: <none>" in out and "type-in-type: <none>" in out and \
+            "unsafe (co)fixpoints: <none>" in out and "positivity is assumed: <none>" in out
+        run.cov["coqchk"] = "ok: no axioms, nothing assumed" if ok else out[-400:]
+        if not ok:
+            run.violation("coqchk does not confirm Properties_C08 without assumptions", out[-4000:],
+                          tag="coqchk", no_input=True)
 
     # thorough tier: the same corpus + a slice of the generated histories on an ASan/UBSan build of
     # the library (objects instrumented, see DESIGN 5.4): same observations, no sanitizer report
@@ -460,6 +494,7 @@ def main(run):
                               % (lines[i], oa[sl.index(i)], oc[i]), tag="asan%d" % nbad)
     run.cov["disagreements"] = nbad
     run.cov["corpus_cases"] = len(corpus)
+    run.cov["strict_differences_not_raised"] = nstrict   # callbacks outside the property (see canon)
     run.cov["checker_runs_on_impl_traces"] = len(mon_in)
 
 
